@@ -7,7 +7,9 @@ pub const ALIAS: [(char, &str); 8] = [('A', "alf"), ('B', "bet"), ('C', "gam"), 
 
 /// naming styles: short only, long only, both, both + hidden aliases
 pub fn styled(slot: usize, style: usize, seed: u64) -> Names {
-    let i = (slot + seed as usize) % POOL.len();
+    // slots 0..3 name items of the top level, 4..7 items of deeper levels: rotating inside the
+    // two halves keeps names distinct across levels whatever seeds the callers combine
+    let i = if slot < 4 { (slot + seed as usize) % 4 } else { 4 + (slot - 4 + seed as usize) % 4 };
     let (s, l) = POOL[i];
     let (sa, la) = ALIAS[i];
     match style % 4 {
